@@ -837,8 +837,9 @@ func c09Corpus(c *Ctx) {
 	// need minutes for 7000 overlapping CIDs)
 	add("known:section-shorter-than-its-cid", c09Job{Entry: c09ERobs, MaxH: def.maxH, MaxS: def.maxS, ImplOnly: true,
 		In: c09AmplifyPayload(hdrOnly, 64<<10), Keys: [][]byte{idAB.Bytes()}}, c09Expect{kind: "none"})
-	// known finding: Resume's version probe reads the first header under the default limit (TotalMain.probe_file)
-	add("known:resume-first-header-over-limit", c09Job{Entry: c09EResume, MaxH: 1 << 10, MaxS: 8 << 20, In: c09PutUvarint(24 << 20),
+	// regression: Resume's version probe used to read the first header under the default limit (TotalMain.probe_file;
+	// repaired: notes/fixes/C09-resume-version-probe-limit.patch)
+	add("fixed:resume-first-header-over-limit", c09Job{Entry: c09EResume, MaxH: 1 << 10, MaxS: 8 << 20, In: c09PutUvarint(24 << 20),
 		W: []uint64{0, 0, 0x0401, 0, 2048, 0, 0, 0, 0, 1 << 10, 8 << 20}}, c09Expect{"over", "hdr2big"})
 	// the same claim through the entry points that do honour the limit (the seeded ReadOrGenerateIndex change)
 	for v := byte(0); v < 4; v++ {
